@@ -49,7 +49,10 @@ RULE = ("sweep: every element (119), isotope, element ion and isotope ion of the
         "return the same objects. growth: four private-table histories (all lists read first / isotope('2-H') first / iteration first / "
         "nothing first), then mass.init, the other loaders, and add_isotope of unused mass numbers for every element "
         "with listings in between; after every step el.isotopes == iteration == the A for which el[A] and "
-        "isotope('A-Sym') give the one object. machine: Hypothesis draws 1-3 atoms (all classes incl. D/T) and 2-30 operations on "
+        "isotope('A-Sym') give the one object. dropped table: a helper builds a private table and returns only atoms (all 17765 of "
+        "them / one atom of each class per table / a Formula holding them); after gc.collect() every pickle protocol, "
+        "copy, deepcopy and container round trip must return the kept atom itself; a second table of the freed name is "
+        "refused, or else leaves those round trips intact. machine: Hypothesis draws 1-3 atoms (all classes incl. D/T) and 2-30 operations on "
         "public/T1/T2, run in a forked pristine interpreter against a registry model; non-trivial = some (table, atom) "
         "is reached by >= 2 different operation kinds; distinct by the operation list. Every swept object and every "
         "invalid key is non-trivial (finite domain, swept completely).")
@@ -439,6 +442,143 @@ def growth_history(variant, report, case_fn=None):
                 report(b, m)
 
 
+# ----------------------------------------------------------------------
+# the caller drops its reference to a private table and keeps only atoms of it
+DROP_VARIANTS = ["all-atoms", "few-atoms", "formula"]
+DROP_FORMULAS = ["H2O", "D2O", "Fe[56]{2+}O{2-}", "D{+}Cl{-}", "T2O[18]", "Na{+}Cl{-}", "U[235]O2", "CaCO3(H2O)6"]
+
+
+def _fresh_private(name):
+    from periodictable import core, mass, density
+    T = core.PeriodicTable(name)
+    mass.init(T)
+    density.init(T)
+    return T
+
+
+def _kept_atoms(name, keys):
+    """A helper that returns only atoms: its table goes out of scope when it returns."""
+    T = _fresh_private(name)
+    return [canonical(T, k) for k in keys]
+
+
+def _kept_formula(name, text):
+    import periodictable
+    return periodictable.formula(text, table=_fresh_private(name))
+
+
+def check_dropped(label, key, x):
+    """x is an atom of a private table nobody references any more: every copy / pickle must still be x."""
+    cls = key_class(tuple(key))
+    for name, thunk in restorers(x):
+        short = "pickle" if name.startswith("pickle") and name[6:].isdigit() else name
+        try:
+            y = thunk()
+        except Violation as v:
+            yield ("c08:dropped-table:" + short + ":" + cls, "%s%r: %s" % (label, tuple(key), v.message))
+            continue
+        except Exception as e:  # noqa
+            yield ("c08:dropped-table:raised:%s:%s" % (short, cls),
+                   "%s%r: %s of an atom whose table was dropped raised %s: %s" % (label, tuple(key), name, type(e).__name__, e))
+            continue
+        if y is not x:
+            yield ("c08:dropped-table:identity:%s:%s" % (short, cls),
+                   "%s%r: %s returned %r (table %r, id %x), not the atom itself (id %x)"
+                   % (label, tuple(key), name, y, getattr(y, "table", "?"), id(y), id(x)))
+
+
+def dropped_history(variant, report, case_fn=None):
+    import gc
+    import periodictable
+    _ENV["drop-n"] = _ENV.get("drop-n", 0) + 1
+    base = "c08-drop-%s-%d" % (variant, _ENV["drop-n"])
+    histories = []      # (table name, [(key, atom)])
+    if variant == "all-atoms":
+        keys = keys_of(periodictable.elements)
+        histories.append((base, list(zip(keys, _kept_atoms(base, keys)))))
+    elif variant == "few-atoms":
+        pub = periodictable.elements
+        n = 0
+        for Z in (0, 1, 2, 8, 26, 64, 92, 118):
+            el = pub[Z]
+            ks = [(Z, 0, 0)]
+            if el.ions:
+                ks.append((Z, 0, el.ions[0]))
+            if el.isotopes:
+                ks.append((Z, el.isotopes[-1], 0))
+                if el.ions:
+                    ks.append((Z, el.isotopes[0], el.ions[-1]))
+            if Z == 1:
+                ks += [(1, 2, 0), (1, 3, 0), (1, 2, 1), (1, 3, -1)]
+            for k in ks:            # one table per kept atom: nothing else of that table stays alive
+                n += 1
+                name = "%s-%d" % (base, n)
+                histories.append((name, list(zip([k], _kept_atoms(name, [k])))))
+    elif variant == "formula":
+        for n, text in enumerate(DROP_FORMULAS):
+            name = "%s-%d" % (base, n)
+            f = _kept_formula(name, text)
+            gc.collect()
+            kept = dict((id(a), a) for a in f.atoms)
+            if case_fn:
+                case_fn("formula", text)
+            copies = [("pickle%d" % p, (lambda p=p: pickle.loads(pickle.dumps(f, protocol=p))))
+                      for p in range(pickle.HIGHEST_PROTOCOL + 1)]
+            copies += [("copy", lambda: copy.copy(f)), ("deepcopy", lambda: copy.deepcopy(f)),
+                       ("formula(f)", lambda: periodictable.formula(f))]
+            for cname, thunk in copies:
+                short = "pickle" if cname.startswith("pickle") else cname
+                try:
+                    g = thunk()
+                except Exception as e:  # noqa
+                    if lib_frame(e.__traceback__) is None and "periodic table" not in str(e).lower():
+                        raise
+                    report("c08:dropped-table:formula:raised:" + short,
+                           "%s of formula(%r, table=<dropped>) raised %s: %s" % (cname, text, type(e).__name__, e))
+                    continue
+                if any(id(a) not in kept for a in g.atoms) or len(g.atoms) != len(kept):
+                    report("c08:dropped-table:formula:identity:" + short,
+                           "%s of formula(%r, table=<dropped>) holds other atom objects than the formula" % (cname, text))
+            histories.append((name, [(_atom_key(a), a) for a in f.atoms]))
+    gc.collect()
+    for name, kept in histories:
+        for key, x in kept:
+            if case_fn:
+                case_fn("kept", (name if variant != "all-atoms" else "", key))
+            for b, m in check_dropped(variant, key, x):
+                report(b, m)
+    # the freed name: on the unchanged tree a second table of that name is refused; if it is accepted the kept
+    # atoms must still be restored as themselves, not as the new table's atoms
+    for name, kept in histories[:12]:
+        try:
+            T2 = _fresh_private(name)
+        except Exception:  # noqa
+            if case_fn:
+                case_fn("same-name:refused", name)
+            continue
+        if case_fn:
+            case_fn("same-name:created", name)
+        for key, x in kept[:400]:
+            for b, m in check_dropped(variant + "+same-name", key, x):
+                report(b.replace("c08:dropped-table:", "c08:dropped-table:same-name:", 1), m)
+            try:
+                if canonical(T2, tuple(key)) is x:
+                    report("c08:dropped-table:same-name:shared", "%s%r: the new table serves the old table's atom" % (variant, key))
+            except Exception:  # noqa
+                pass
+
+
+def _atom_key(a):
+    return (a.number, getattr(a, "isotope", 0), a.charge)
+
+
+def task_dropped(ctx, variant):
+    case = {"kind": "dropped", "variant": variant}
+    dropped_history(variant, lambda b, m: ctx.violation(b, m, case),
+                    lambda stage, k: ctx.case((variant, stage, k), True, {"dropped-table": variant, "stage": stage, "what": k},
+                                              ["dropped:" + variant, "dropped-stage:" + stage.split(":")[0]]))
+
+
 def task_growth(ctx, variant):
     case = {"kind": "growth", "variant": variant}
     growth_history(variant, lambda b, m: ctx.violation(b, m, case),
@@ -755,6 +895,7 @@ def op_strategy(pool):
         st.tuples(st.just("bad"), tbl, st.sampled_from(BADS), idx, st.integers(0, 10**6)),
         st.tuples(st.just("iter"), tbl, idx),
         st.tuples(st.just("list"), tbl, idx),
+        st.tuples(st.just("drop"), st.sampled_from(["T1", "T2", "T3"])),
         st.tuples(st.just("grow"), tbl, st.integers(0, 10**4), idx),
         st.tuples(st.just("grow"), st.sampled_from(["T3", "T3", "T1", "public"]), st.integers(0, 10**4), idx),
         st.tuples(st.just("init"), st.sampled_from(["mass.init", "mass.init", "density.init", "nsf.init", "activation.init"]),
@@ -772,6 +913,7 @@ def _pick_route(T, key, is_public, r):
 class _Machine(object):
     def __init__(self):
         self.tables = {}
+        self.dropped = set()
         self.registry = {}
         self.kinds = {}
 
@@ -821,6 +963,25 @@ class _Machine(object):
             kind = op[0]
             if kind == "load":
                 _touch_public([op[1]])
+                continue
+            if kind == "drop":
+                # the caller forgets the table; atoms already seen stay alive in the registry
+                T = None
+                if self.tables.pop(op[1], None) is not None:
+                    self.dropped.add(op[1])
+                    import gc
+                    gc.collect()
+                continue
+            if (kind == "init" and op[2] in self.dropped) or (kind == "change" and op[2] in self.dropped):
+                continue
+            if kind != "init" and op[1] in self.dropped:
+                k = (op[1], keys[op[-1] % len(keys)])
+                if kind in ("pickle", "copy") and k in self.registry:
+                    x = self.registry[k]
+                    y = (pickle.loads(pickle.dumps(x, protocol=op[2])) if kind == "pickle" else dict(restorers(x))[op[2]]())
+                    if y is not x:
+                        raise Violation("c08:machine:dropped-table:identity:" + kind,
+                                        "%s%r: %s after the table was dropped returned another object" % (k[0], k[1], kind))
                 continue
             if kind == "init":
                 try:
@@ -898,7 +1059,13 @@ class _Machine(object):
             elif kind == "bad":
                 self.bad(tname, T, key, op[2], op[4])
         # closing: everything seen is still what the canonical route serves
+        T = None
         for (tname, key), x in list(self.registry.items()):
+            if tname in self.dropped:
+                if pickle.loads(pickle.dumps(x)) is not x or copy.deepcopy(x) is not x:
+                    raise Violation("c08:machine:dropped-table:identity:final",
+                                    "%s%r: pickle/deepcopy after the table was dropped returned another object" % (tname, key))
+                continue
             self.see(tname, key, canonical(self.T(tname), key), "final")
 
     def bad(self, tname, T, key, what, r):
@@ -1048,6 +1215,7 @@ def tasks(tier):
            ("invalid-private-a", task_invalid, dict(cfg="private-a")),
            ("invalid-private-b", task_invalid, dict(cfg="private-b"))]
     out += [("growth-" + v, task_growth, dict(variant=v)) for v in GROWTH_VARIANTS]
+    out += [("dropped-" + v, task_dropped, dict(variant=v)) for v in DROP_VARIANTS]
     if tier == "quick":
         out += [("machine-%d" % k, task_machine, dict(n=300, preimport=bool(k % 2))) for k in range(4)]
     else:
@@ -1059,6 +1227,9 @@ def replay(ctx, case):
     kind = case["kind"]
     if kind == "machine":
         check_machine(ctx, [case["atoms"], case["ops"]])
+        return
+    if kind == "dropped":
+        dropped_history(case["variant"], lambda b, m: ctx.violation(b, m, case))
         return
     if kind == "growth":
         growth_history(case["variant"], lambda b, m: ctx.violation(b, m, case))
